@@ -172,6 +172,40 @@ PROPS = {
         "assumptions": ["cache timing is over-approximated in the model by a nondeterministic evict step enabled iff cleaning is enabled",
                         "the model's atomic step is one storage-manager call (single task)"],
     },
+    "C14": {
+        "thm_module": ["AkdModel.Thm.C01b", "AkdModel.Thm.C01a"],
+        "theorems": ["Akd.C01.batchInsert_perm", "Akd.C01.batchInsert_refines", "Akd.C01.ofLeaves_perm", "Akd.C01.wf_unique"],
+        "streams": ["l1.c14"],
+        "matrix": [
+            {"name": "seq-nocache", "flags": []},
+            {"name": "par-static1", "flags": ["--par", "static1"]},
+            {"name": "par-static2-cache", "flags": ["--par", "static2", "--cache", "default"]},
+            {"name": "par-static3", "flags": ["--par", "static3"]},
+            {"name": "par-static4-cache1ms", "flags": ["--par", "static4", "--cache", "1ms"]},
+            {"name": "par-static8-tiny", "flags": ["--par", "static8", "--cache", "tiny"]},
+            {"name": "par-static32", "flags": ["--par", "static32", "--cache", "default"]},
+            {"name": "par-avail32", "flags": ["--par", "avail32", "--cache", "default"]},
+            {"name": "cache-default", "flags": ["--cache", "default"]},
+            {"name": "cache-1ms", "flags": ["--cache", "1ms"]},
+            {"name": "cache-tiny", "flags": ["--cache", "tiny"]},
+            {"name": "restart-50pct", "flags": ["--restart", "500", "--cache", "default"]},
+            {"name": "restart-50pct-par", "flags": ["--restart", "500", "--par", "static4"]},
+            {"name": "readonly", "flags": ["--readonly", "--cache", "default"]},
+            {"name": "readonly-restart", "flags": ["--readonly", "--restart", "300"]},
+            {"name": "nofeatures", "bin": "nf", "flags": []},
+            {"name": "nofeatures-cache-par", "bin": "nf", "flags": ["--cache", "default", "--par", "static4"]},
+            {"name": "nofeatures-restart", "bin": "nf", "flags": ["--restart", "500", "--cache", "1ms"]},
+        ],
+        "rule": "one ops stream (histories with publishes, every label's lookup, histories for several parameters, all audit "
+                "ranges, all verified; then the same leaf set inserted in random orders and random splits into sub-batches within "
+                "one epoch) is executed on the real code under EVERY configuration of the matrix — insertion/preload parallelism "
+                "{off, static 1,2,3,4,8,32, available-or-32}, cache {none, default, 1 ms lifetime, 300-byte limit}, directory "
+                "object dropped and re-created before ~half of the calls, read operations through ReadOnlyDirectory, and a second "
+                "build without greedy_lookup_preload/preload_history/parallel_vrf — on a multi-thread runtime, and each run's "
+                "observations (epoch hashes, verification outcomes, verified results) are compared with the single model run; "
+                "oracle: all insertion orders/splits of a group give one root hash",
+        "assumptions": ["tokio's actual scheduling is sampled, not enumerated"],
+    },
     "C15": {
         "thm_module": ["AkdModel.Thm.C16"],
         "theorems": ["Akd.Store." + t for t in ["commit_exact", "get_txn_eq_commit", "userState_txn_eq_commit",
@@ -253,8 +287,11 @@ PROPS = {
         "assumptions": ["VRF contract as in C06"],
     },
     "C09": {
-        "thm_module": ["AkdModel.Thm.C01b", "AkdModel.Thm.C01a"],
-        "theorems": ["Akd.C01.batchInsert_refines", "Akd.C01.wf_unique", "Akd.C01.rootHash_injective"],
+        "thm_module": ["AkdModel.Thm.C09"],
+        "theorems": ["Akd.C09." + t for t in ["audit_sound", "audit_verify_sound", "rebuildRoot_canonical", "labelsPrefixFree_iff",
+                                              "length_mismatch_rejected", "root_substitution_rejected", "audit_unsound_witness",
+                                              "audit_witness_rejected", "audit_unsound_witness_wf", "audit_witness_wf_rejected"]]
+                    + ["Akd.C01.batchInsert_refines"],
         "streams": ["l1.dir.c09"],
         "rule": "random histories; after every effective publish the honest single-epoch audit proof of the latest transition is "
                 "edited by the symbolic adversary (inserted label extending / equal to / a prefix (0,1,2,7,8 bits) of an "
